@@ -49,7 +49,11 @@ Sites == {"theta.lg_k", "theta_union.lg_k", "tuple.lg_k", "tuple_union.lg_k", "a
           "kll.k", "req.k", "quantiles.k", "fi.lg_sizes", "fi.weight_i64", "fi.weight_double",
           "countmin.shape", "bloom.by_size", "bloom.by_accuracy",
           "varopt.k", "varopt_union.max_k", "ebpps.k", "varopt.weight", "ebpps.weight",
-          "tdigest.k", "density.k"}
+          "tdigest.k", "density.k",
+          \* checks behind the constructors (added after bin/implcov showed that no trace executed them)
+          "hll.bound_num_std_dev", "hll_union.bound_num_std_dev", "cpc.bound_kappa", "cpc_union.update_seed", "tdigest.split_points",
+          "bloom.init_by_size", "bloom.init_by_accuracy", "bloom.from_memory", "bloom.serialized_size", "bloom.suggest_hashes_nm",
+          "theta_intersection.operand"}
 
 Zone(site, a, cls) ==
   CASE site \in {"theta.lg_k", "theta_union.lg_k", "tuple.lg_k", "tuple_union.lg_k", "aod.lg_k"} ->
@@ -111,6 +115,49 @@ Zone(site, a, cls) ==
     [] site = "tdigest.k" ->
          \* "k must be at least 10"
          Z3(Val(a[1]) >= 10)
+    [] site \in {"hll.bound_num_std_dev", "hll_union.bound_num_std_dev", "cpc.bound_kappa"} ->
+         \* a = <<number of standard deviations, lower / upper, state of the sketch>>: "This must be an integer between 1 and 3,
+         \* inclusive" (hll); "kappa must be 1, 2 or 3" (cpc)
+         Z3(In(Val(a[1]), 1, 3))
+    [] site = "cpc_union.update_seed" ->
+         \* a = <<1 if the sketch was built with the union's seed, lvalue / rvalue>>: "Incompatible seed hashes"
+         Z3(Val(a[1]) = 1)
+    [] site = "tdigest.split_points" ->
+         \* a = <<kind, get_CDF / get_PMF>>: kind 0 = increasing; 1..3 = a NaN first / in the middle / last ("Values must not be NaN");
+         \* 4 = a repeated value, 5 = decreasing ("Values must be unique and monotonically increasing"); 6 = a single NaN, 7 = a single value
+         Z3(Val(a[1]) \in {0, 7})
+    [] site = "bloom.init_by_size" ->
+         \* a = <<num_bits, num_hashes, length of the caller's memory>>: the rules of by_size, and "Input memory block is too small":
+         \* the block must hold get_serialized_size_bytes(num_bits) = 32 + 8 * ceil(num_bits / 64) bytes
+         IF IsZero(a[1]) \/ ~LimbLE(a[1], BloomMaxBits) \/ IsZero(a[2]) THEN "invalid"
+         ELSE IF Val(a[1]) > 100000000 THEN "free"            \* filters of more than 10^8 bits in caller's memory are not probed
+         ELSE Z3(Val(a[3]) >= 32 + 8 * ((Val(a[1]) + 63) \div 64))
+    [] site = "bloom.init_by_accuracy" ->
+         \* a = <<max_distinct_items, length of the caller's memory>>, cls of the probability: the rules of by_accuracy; a block
+         \* below 40 bytes cannot hold the header and one word of any filter; a megabyte holds every filter for <= 1000 items
+         IF IsZero(a[1]) \/ ~Probability(cls) \/ Val(a[2]) < 40 THEN "invalid"
+         ELSE IF cls = "one" \/ Val(a[1]) > 1000 \/ Val(a[2]) < 1048576 THEN "free" ELSE "valid"
+    [] site = "bloom.from_memory" ->
+         \* a = <<kind, deserialize / wrap / writable_wrap>>: 0 = a valid image, 1 = a null pointer with a length ("Input data is null
+         \* or empty"), 2 = a null pointer with length 0 (refused as too short, by another exception type: free)
+         IF Val(a[1]) = 0 THEN "valid" ELSE IF Val(a[1]) = 1 THEN "invalid" ELSE "free"
+    [] site = "bloom.serialized_size" ->
+         \* get_serialized_size_bytes(num_bits): "Number of bits must be greater than zero"
+         Z3(~IsZero(a[1]))
+    [] site = "bloom.suggest_hashes_nm" ->
+         \* a = <<max_distinct_items, num_filter_bits>>: both strictly positive, "number of bits in the filter must be less than 2^63"
+         \* (the limit tested is the largest filter)
+         Z3(~IsZero(a[1]) /\ ~IsZero(a[2]) /\ LimbLE(a[2], BloomMaxBits))
+    [] site = "theta_intersection.operand" ->
+         \* a = <<corruption, operand position 1 / 2, ordered, deserialized 0 / wrapped 1>> of a hand-corrupted compact image:
+         \* 1 = a duplicated hash, 2 = a zero hash (one entry fewer than the count says).  "... possibly corrupted input sketch":
+         \* what the intersection can see must be refused (a duplicate while it copies its first operand; a count that does not
+         \* match what the iteration of a deserialized sketch yields); what it cannot see is free.  "Unchanged" means here: still usable.
+         LET kind == Val(a[1])  pos == Val(a[2])  ord == Val(a[3])  form == Val(a[4]) IN
+         IF kind = 0 THEN "valid"
+         ELSE IF kind = 1 /\ pos = 1 THEN "invalid"
+         ELSE IF kind = 2 /\ form = 0 /\ (pos = 1 \/ ord = 0) THEN "invalid"
+         ELSE "free"
     [] site = "density.k" ->
          \* a = <<k, dim>>: "k must be > 1"; a zero dimension is not ruled out by any text: free
          IF Val(a[1]) < 2 THEN "invalid" ELSE IF IsZero(a[2]) THEN "free" ELSE "valid"
@@ -119,7 +166,7 @@ Zone(site, a, cls) ==
 EchoArg(site) ==
   CASE site \in {"theta.lg_k", "tuple.lg_k", "aod.lg_k", "hll.lg_k", "hll_union.lg_max_k", "cpc.lg_k", "kll.k", "req.k", "quantiles.k",
                  "varopt.k", "ebpps.k", "tdigest.k", "density.k"} -> 1
-    [] site = "bloom.by_size" -> 2
+    [] site \in {"bloom.by_size", "bloom.init_by_size"} -> 2
     [] OTHER -> 0
 
 Outcomes == {"ok", "invalid_argument", "bad_alloc", "other", "crash"}
